@@ -33,7 +33,7 @@ example : (uncheckedAssertsParse ++ uncheckedAssertsWire ++ uncheckedAssertsAnal
 
 example : copyDefaultPanics = true ∧ zeroDefaultPanics = true := by decide
 
-example : zeroKindsAll.length = 9 ∧ zeroCases.length = 9 ∧ basicKinds.length = 18 := by decide
+example : zeroKindsAll.length = 9 ∧ zeroKindsAll.length ≤ zeroCases.length ∧ basicKinds.length = 18 := by decide
 
 /-- `UnsafePointer` has no flag and is covered only through `zeroBasicKinds` -/
 example : (basicKinds.filter (fun kf => !(kf.2.any (fun f => zeroBasicFlags.contains f)))).map (·.1) = ["UnsafePointer"] := by
